@@ -21,7 +21,10 @@ Expected(r) == IF r.match # 0 /\ r.match < r.T THEN [res |-> Delivered(r), at |-
 (* signals = TRUE: the process handled signals while the (sync) request was blocked.  What the interrupted call returns is not the
    property's business (the library reports the interruption as OSError at once; retrying is legitimate as well) - only the bound is:
    the call is over by its deadline. *)
+(* result = "NotRun": the driver stopped driving this client after two of its calls failed to return at all (each reported as
+   DidNotReturn); nothing was observed for this schedule *)
 Good(r) == LET x == Expected(r) IN
+           IF r.result = "NotRun" THEN TRUE ELSE
            IF r.signals
              THEN /\ r.result \in {"TimeoutError", "OSError", "InterruptedError", "delivered"}
                   /\ r.elapsed_ms <= r.T * r.tick_ms + r.slack_ms
